@@ -53,3 +53,24 @@ Proof.
   unfold counter_events_ok in He. rewrite Hc in He. replace (mv_increments_rmw c) with true in He by (symmetry; assumption). cbn in He.
   apply atomic_increments_never_lost. exact He.
 Qed.
+
+(* terminate() from any thread makes the condition true for good: with the terminate-first design every eval() that takes
+   effect after a terminate() returns true, whatever the evaluation thread stores in between *)
+Lemma prun_after_terminate : forall periodic fn l c, Forall (fun b => b = true) (prun true periodic fn (mkP true c) l).
+Proof.
+  intros periodic fn l. induction l as [|e t IH]; intros c; [constructor|]. destruct e as [|v|]; cbn [prun pstep p_term p_cached orb].
+  - apply IH.
+  - apply IH.
+  - constructor; [reflexivity|apply IH].
+Qed.
+Theorem terminate_sticks : forall periodic fn s before after,
+  Forall (fun b => b = true) (prun true periodic fn (fst (fold_left (fun st e => (fst (pstep true periodic fn (fst st) e), tt)) (before ++ [PTerminate]) (s, tt))) after).
+Proof.
+  intros periodic fn s before after.
+  assert (H : forall l st, p_term (fst (fold_left (fun st e => (fst (pstep true periodic fn (fst st) e), tt)) (l ++ [PTerminate]) (st, tt))) = true).
+  { induction l as [|e t IH]; intros st; cbn [app fold_left fst]; [reflexivity|]. apply IH. }
+  specialize (H before s). destruct (fst (fold_left _ (before ++ [PTerminate]) (s, tt))) as [tm c]. cbn [p_term] in H. subst tm. apply prun_after_terminate.
+Qed.
+(* the other design loses a terminate() that lands while the evaluation thread is inside the predicate *)
+Theorem cached_only_design_refuted : prun false true false (mkP false false) [PTerminate; PThreadStore false; PEval] = [false].
+Proof. reflexivity. Qed.
